@@ -828,7 +828,7 @@ pub fn run_c13(opt: &Options) -> i32 {
     let cases = if opt.thorough() {
         opt.scaled(4_000_000)
     } else {
-        opt.scaled(120_000)
+        opt.scaled(600_000)
     };
     let fps = Distinct::new(30);
     let nontrivial = Distinct::new(30);
